@@ -479,6 +479,11 @@ func (S *Specs) LoadFile(path string, goFile bool) error {
 
 // Finish parses all clause texts.
 func (S *Specs) Finish() error {
+	for n, sf := range S.Funcs {
+		if sf.Body != nil && !sf.Rec && !sf.Opaque {
+			definedFuncs["spec."+n] = true
+		}
+	}
 	var all []*Clause
 	for _, c := range S.Contracts {
 		all = append(all, c.Requires...)
